@@ -1,19 +1,49 @@
 #!/usr/bin/env python3
-"""Rewrites the seeded-changes table of DESIGN.md from seeded/*/meta.json."""
+"""Rewrites the seeded-changes table of DESIGN.md from seeded/*/meta.json and notes/seedsweep.txt."""
 import glob, json, os, re
 V = os.path.dirname(os.path.dirname(os.path.abspath(__file__)))
-rows = ["| id | property | site | needs to manifest | detected by |", "|---|---|---|---|---|"]
-for m in sorted(glob.glob(os.path.join(V, "seeded", "*", "meta.json"))):
+sweep = {}
+sp = os.path.join(V, "notes", "seedsweep.txt")
+if os.path.exists(sp):
+    for l in open(sp):
+        t = l.split(" ", 3)
+        if len(t) >= 3 and not l.startswith("#"):
+            sweep[t[0]] = t[2].strip()
+rows = ["| id | property | site | needs to manifest | first caught by | last sweep (own check) |", "|---|---|---|---|---|---|"]
+
+
+def key(m):
+    i = os.path.basename(os.path.dirname(m))
+    a, b = i.rsplit("-", 1)
+    return (a, int(b))
+
+
+def needs(d, dirn):
+    n = d.get("needs_to_manifest", "").strip()
+    if not n or n.startswith("#") or len(n) < 25:
+        # the first line of the README that is not a heading
+        for l in open(os.path.join(dirn, "README.md")):
+            l = l.strip()
+            if l and not l.startswith("#"):
+                n = l
+                break
+    return n
+
+
+for m in sorted(glob.glob(os.path.join(V, "seeded", "*", "meta.json")), key=key):
     d = json.load(open(m))
-    diff = open(os.path.join(os.path.dirname(m), "patch.diff")).read()
+    dirn = os.path.dirname(m)
+    diff = open(os.path.join(dirn, "patch.diff")).read()
     files = sorted(set(l[6:] for l in diff.splitlines() if l.startswith("+++ b/")))
-    det = "; ".join(x.split(":")[0] for x in d.get("detected_by", [])) or "NOT DETECTED"
+    det = "; ".join(x.split(":")[0] for x in d.get("detected_by", [])) or "missed when written (see 8.6/8.9)"
     esc = lambda t: t.replace("|", "\\|").replace("\n", " ")
-    rows.append("| %s | %s | %s | %s | %s |" % (d["id"], d["property"], ", ".join(files), esc(d["needs_to_manifest"])[:220], esc(det)))
+    rows.append("| %s | %s | %s | %s | %s | %s |" % (d["id"], d["property"], ", ".join(files), esc(needs(d, dirn))[:200], esc(det),
+                                                  sweep.get(d["id"], "-")))
 p = os.path.join(V, "DESIGN.md")
 s = open(p).read()
 a = s.index("<!-- SEEDTABLE BEGIN -->")
 b = s.index("<!-- SEEDTABLE END -->")
 s = s[:a] + "<!-- SEEDTABLE BEGIN -->\n" + "\n".join(rows) + "\n" + s[b:]
 open(p, "w").write(s)
-print(len(rows) - 2, "seeded changes")
+print(len(rows) - 2, "seeded changes;", sum(1 for v in sweep.values() if v == "quick"), "quick,",
+      sum(1 for v in sweep.values() if v == "thorough"), "thorough-only,", sum(1 for v in sweep.values() if v not in ("quick", "thorough")), "other in the last sweep")
